@@ -42,6 +42,12 @@ SCENARIOS = {
         "initPhase": ["init", "init", "init", "init", "init", "registered"],
         "t0": 5 * HR + 50 * 60 - 20, "maxT": 5 * HR + 50 * 60 + 60, "marks": [5 * HR + 50 * 60 - 8, 5 * HR + 50 * 60 + 30], "day": 789,
     },
+    # underutilized nodes (one small replicated pod each): multi-/single-node consolidation, reason Underutilized
+    "S4": {
+        "pools": {"pa": [bd("count", 2, ("Underutilized",)), bd("pct", 100)], "pb": [bd("pct", 50)]},
+        "poolOf": ["pa", "pa", "pa", "pa", "pb", "pb"], "kindOf": ["under"] * 6, "initPhase": ["init"] * 6,
+        "t0": 100, "maxT": 700, "marks": [200, 400], "day": 0,
+    },
 }
 
 
